@@ -239,6 +239,7 @@ def judge_strand(case, rec):
     sv, q = case["survey"], case["query"]
     resp = zz9enc.encode(sv, q)
     part = lib.cube(resp, _with_hide(case["transforms"], case["hide"])).partitions[0]
+    lib.warm(part, case.get("warmup"))
     orc = Oracle(sv, q)
     rec.event("shape=" + "x".join(case["shape"]))
     rspecs = lib.display_specs(part.row_order(), part.row_labels, orc.rows,
